@@ -1009,7 +1009,11 @@ pub async fn process_multiple_changes(
                         // if we have no gaps, then we can schedule applying all these changes.
                         debug!(%actor_id, %version, "we now have all versions, notifying for background jobber to insert buffered changes! seqs: {seqs:?}, expected full seqs: {full_seqs_range:?}");
                         let tx_apply = agent.tx_apply().clone();
+                        #[cfg(feature = "verif")]
+                        let verif_pending = klukai_types::verif::PendingGuard::new();
                         tokio::spawn(async move {
+                            #[cfg(feature = "verif")]
+                            let _verif_pending = verif_pending;
                             if let Err(e) = tx_apply.send((actor_id, version)).await {
                                 error!(
                                     "could not send trigger for applying fully buffered changes later: {e}"
